@@ -291,6 +291,7 @@ Proof.
     rewrite subset_in in Hsub. cbn [run]. rewrite (validate_R _ _ _ Hc).
     destruct (validate s2 cs); cbn [bind]; auto. apply IHp; auto.
     eapply R_mapped; [exact Hm| |exact Hsub]. auto.
+  - (* Ren *) cbn [pnames] in HR. cbn [wf] in Hwf. cbn [run]. apply IHp; auto.
 Qed.
 
 (* clause (b) in full: assignments that agree on the declared names give the same result *)
